@@ -491,7 +491,8 @@ def _shared(ctx, counts) -> list:
     (R11.2)"""
     from .c08_sequences import r08_4
     from .c11_datetime import r11_2
-    return [r08_4(ctx, counts), r11_2(ctx, counts)]
+    from .c11_datetime import r11_8
+    return [r08_4(ctx, counts), r11_2(ctx, counts), r11_8(ctx, counts)]
 
 
 def r07_5(ctx, counts) -> RuleResult:
